@@ -8,171 +8,7 @@ verus! {
 //@include prelude/rt.rs
 //@include prelude/er.rs
 
-pub open spec fn cd(d: int, a: int, b: int) -> bool { dvd(d, a) && dvd(d, b) }
-
-/// any two gcds are associates; normalised ones are equal (gcd is independent of argument order)
-pub proof fn lemma_gcd_unique(g: int, h: int, x: int, y: int)
-    requires is_gcd(g, x, y), is_gcd(h, x, y), is_norm(g), is_norm(h)
-    ensures g == h
-{
-    assert(dvd(g, h)); assert(dvd(h, g));
-    ax_norm_unique(g, h);
-}
-pub proof fn lemma_gcd_symmetric(g: int, x: int, y: int)
-    requires is_gcd(g, x, y)
-    ensures is_gcd(g, y, x)
-{}
-
-impl ER {
-//@source yui/src/abst/euc_ring.rs
-    pub fn divides(&self, y: &ER) -> (r: bool)
-        ensures r == (self.v() != r0() && dvd(self.v(), y.v())),
-    //@body trait/EucRing/divides ring=1
-    //@+ sig
-    //@| fn divides(&self, y: &Self) -> bool
-    //@+ pre
-    //@| if self.v() != r0() { lemma_rem_zero_iff_dvd(y.v(), self.v()); }
-
-//@source yui/src/abst/ring.rs
-    pub fn normalized(&self) -> (r: ER)
-        ensures r.v() == rmul(self.v(), nunit(self.v())), is_norm(r.v()), assoc(self.v(), r.v()),
-    //@body trait/Ring/normalized ring=1
-    //@+ sig
-    //@| fn normalized(&self) -> Self
-
-    pub fn into_normalized(self) -> (r: ER)
-        ensures r.v() == rmul(self.v(), nunit(self.v())), is_norm(r.v()), assoc(self.v(), r.v()),
-    //@body trait/Ring/into_normalized ring=1
-    //@+ sig
-    //@| fn into_normalized(self) -> Self
-    //@+ pre-raw
-    //@| let ghost a = self.v();
-    //@+ pre
-    //@| ax_mul_one(a); ax_nunit_normalizes(a); ax_nunit_unit(a); lemma_unit_assoc(a, nunit(a));
-
-    pub fn is_pm_one(&self) -> (r: bool)
-        ensures r == (self.v() == r1() || rneg(self.v()) == r1()),
-    //@body trait/Ring/is_pm_one ring=1
-    //@+ sig
-    //@| fn is_pm_one(&self) -> bool
-
-//@source yui/src/abst/euc_ring.rs
-    pub fn gcd(x: &ER, y: &ER) -> (g: ER)
-        ensures
-            (x.v() == r0() && y.v() == r0()) ==> g.v() == r0(),
-            is_gcd(g.v(), x.v(), y.v()),
-            is_norm(g.v()),
-    //@body trait/EucRing/gcd ring=1
-    //@+ sig
-    //@| fn gcd(x: &Self, y: &Self) -> Self
-    //@+ pre-raw
-    //@| let ghost xx = x.v(); let ghost yy = y.v();
-    //@+ pre
-    //@| ax_nunit_zero();
-    //@| assert forall|c: int| dvd(c, r0()) by { lemma_dvd_zero(c); }
-    //@| let g1 = rmul(xx, nunit(xx)); let g2 = rmul(yy, nunit(yy));
-    //@| ax_nunit_unit(xx); lemma_unit_assoc(xx, nunit(xx));
-    //@| ax_nunit_unit(yy); lemma_unit_assoc(yy, nunit(yy));
-    //@| lemma_dvd_refl(xx); lemma_dvd_refl(yy);
-    //@| if dvd(xx, yy) {
-    //@|     lemma_dvd_trans(g1, xx, yy);
-    //@|     assert forall|c: int| dvd(c, xx) && dvd(c, yy) implies dvd(c, g1) by { lemma_dvd_trans(c, xx, g1); }
-    //@| }
-    //@| if dvd(yy, xx) {
-    //@|     lemma_dvd_trans(g2, yy, xx);
-    //@|     assert forall|c: int| dvd(c, xx) && dvd(c, yy) implies dvd(c, g2) by { lemma_dvd_trans(c, yy, g2); }
-    //@| }
-    //@+ loop 0
-    //@| invariant
-    //@|     forall|d: int| #[trigger] cd(d, x.v(), y.v()) <==> cd(d, xx, yy),
-    //@| decreases emeasure(y.v()),
-    //@+ after-let r
-    //@| ax_euclid(x.v(), y.v());
-    //@| assert forall|d: int| #[trigger] cd(d, y.v(), r.v()) <==> cd(d, xx, yy) by {
-    //@|     lemma_cd_step(d, x.v(), y.v(), rdiv(x.v(), y.v()), r.v());
-    //@|     assert(cd(d, x.v(), y.v()) <==> cd(d, xx, yy));
-    //@| }
-    //@+ post
-    //@| let xv = x.v(); let gv = rmul(xv, nunit(xv));
-    //@| ax_nunit_unit(xv); lemma_unit_assoc(xv, nunit(xv));
-    //@| lemma_dvd_refl(xv); lemma_dvd_zero(xv);
-    //@| assert(cd(xv, xv, y.v()));
-    //@| lemma_dvd_trans(gv, xv, xx); lemma_dvd_trans(gv, xv, yy);
-    //@| assert forall|c: int| dvd(c, xx) && dvd(c, yy) implies dvd(c, gv) by {
-    //@|     assert(cd(c, xx, yy)); assert(cd(c, xv, y.v())); lemma_dvd_trans(c, xv, gv);
-    //@| }
-
-    pub fn gcdx(x: &ER, y: &ER) -> (res: (ER, ER, ER))
-        ensures
-            (x.v() == r0() && y.v() == r0()) ==> res.0.v() == r0(),
-            res.0.v() == radd(rmul(res.1.v(), x.v()), rmul(res.2.v(), y.v())),
-            is_gcd(res.0.v(), x.v(), y.v()),
-            is_norm(res.0.v()),
-    //@body trait/EucRing/gcdx ring=1
-    //@+ sig
-    //@| fn gcdx(x: &Self, y: &Self) -> (Self, Self, Self)
-    //@+ pre-raw
-    //@| let ghost xx = x.v(); let ghost yy = y.v();
-    //@+ pre
-    //@| ax_nunit_zero();
-    //@| assert forall|c: int| dvd(c, r0()) by { lemma_dvd_zero(c); }
-    //@| id_one_zero_comb(xx, yy); id_mul_zero(xx); id_mul_zero(yy); ax_add_zero(r0());
-    //@| let g1 = rmul(xx, nunit(xx)); let g2 = rmul(yy, nunit(yy));
-    //@| ax_nunit_unit(xx); lemma_unit_assoc(xx, nunit(xx)); ax_nunit_normalizes(xx); id_unit_comb(nunit(xx), xx, yy);
-    //@| ax_nunit_unit(yy); lemma_unit_assoc(yy, nunit(yy)); ax_nunit_normalizes(yy); id_unit_comb(nunit(yy), xx, yy);
-    //@| lemma_dvd_refl(xx); lemma_dvd_refl(yy);
-    //@| if dvd(xx, yy) {
-    //@|     lemma_dvd_trans(g1, xx, yy);
-    //@|     assert forall|c: int| dvd(c, xx) && dvd(c, yy) implies dvd(c, g1) by { lemma_dvd_trans(c, xx, g1); }
-    //@| }
-    //@| if dvd(yy, xx) {
-    //@|     lemma_dvd_trans(g2, yy, xx);
-    //@|     assert forall|c: int| dvd(c, xx) && dvd(c, yy) implies dvd(c, g2) by { lemma_dvd_trans(c, yy, g2); }
-    //@| }
-    //@+ loop 0
-    //@| invariant
-    //@|     forall|d: int| #[trigger] cd(d, x.v(), y.v()) <==> cd(d, xx, yy),
-    //@|     x.v() == radd(rmul(s0.v(), xx), rmul(t0.v(), yy)),
-    //@|     y.v() == radd(rmul(s1.v(), xx), rmul(t1.v(), yy)),
-    //@| decreases emeasure(y.v()),
-    //@+ after-let r
-    //@| ax_euclid(x.v(), y.v());
-    //@| assert forall|d: int| #[trigger] cd(d, y.v(), r.v()) <==> cd(d, xx, yy) by {
-    //@|     lemma_cd_step(d, x.v(), y.v(), q.v(), r.v());
-    //@|     assert(cd(d, x.v(), y.v()) <==> cd(d, xx, yy));
-    //@| }
-    //@| id_sub_cancel(rmul(q.v(), y.v()), r.v());
-    //@| id_bezout_step(xx, yy, s0.v(), t0.v(), s1.v(), t1.v(), q.v());
-    //@+ after-let d
-    //@| let dv = d.v(); let gv = rmul(dv, nunit(dv));
-    //@| ax_nunit_unit(dv); lemma_unit_assoc(dv, nunit(dv)); ax_nunit_normalizes(dv); ax_mul_one(dv);
-    //@| id_scale_comb(s.v(), xx, t.v(), yy, nunit(dv));
-    //@| lemma_dvd_refl(dv); lemma_dvd_zero(dv);
-    //@| assert(cd(dv, dv, y.v()));
-    //@| lemma_dvd_trans(gv, dv, xx); lemma_dvd_trans(gv, dv, yy);
-    //@| assert forall|c: int| dvd(c, xx) && dvd(c, yy) implies dvd(c, gv) by {
-    //@|     assert(cd(c, xx, yy)); assert(cd(c, dv, y.v())); lemma_dvd_trans(c, dv, gv);
-    //@| }
-
-    pub fn lcm(x: &ER, y: &ER) -> (l: ER)
-        requires !(x.v() == r0() && y.v() == r0()),
-        ensures
-            is_norm(l.v()),
-            forall|g: int| is_gcd(g, x.v(), y.v()) && is_norm(g) ==> assoc(#[trigger] rmul(l.v(), g), rmul(x.v(), y.v())),
-    //@body trait/EucRing/lcm ring=1
-    //@+ sig
-    //@| fn lcm(x: &Self, y: &Self) -> Self
-    //@+ after-let g
-    //@| if g.v() == r0() { lemma_zero_dvd(x.v()); lemma_zero_dvd(y.v()); }
-    //@| lemma_rem_zero_iff_dvd(y.v(), g.v()); ax_euclid(y.v(), g.v()); ax_add_zero(rmul(rdiv(y.v(), g.v()), g.v()));
-    //@+ post
-    //@| let gv = g.v(); let yp = rdiv(y.v(), gv); let mv = m.v(); let u = nunit(mv);
-    //@| id_lcm(x.v(), yp, gv);
-    //@| ax_nunit_unit(mv); lemma_unit_assoc(rmul(x.v(), y.v()), u); id_mul_swap(mv, u, gv);
-    //@| assert forall|h: int| is_gcd(h, x.v(), y.v()) && is_norm(h) implies assoc(#[trigger] rmul(rmul(mv, u), h), rmul(x.v(), y.v())) by {
-    //@|     lemma_gcd_unique(h, gv, x.v(), y.v());
-    //@| }
-}
+//@include units/euc_ring/body.inc
 
 } // verus!
 fn main() {}
